@@ -410,7 +410,11 @@ impl Sim {
                 let i = self.idx(arg).ok_or("node")?;
                 let m = self.nodes[i].repl_q.pop_front().ok_or("empty repl")?;
                 nundb::verif::set_data_dir(Some(self.nodes[i].node.dir.clone()));
-                self.nodes[i].repl_tx.try_send(m.clone()).map_err(|e| e.to_string())?;
+                if self.nodes[i].repl_tx.try_send(m.clone()).is_err() {
+                    let name = self.nodes[i].name.clone();
+                    self.emit(json!({"ev":"repl","node":name,"msg":m,"panic":false,"dead":true,"role":"-"}));
+                    return Ok(());
+                }
                 let f = &mut self.nodes[i].repl_fut;
                 let r = catch_unwind(AssertUnwindSafe(|| poll_once(f)));
                 let name = self.nodes[i].name.clone();
@@ -421,7 +425,12 @@ impl Sim {
                 let i = self.idx(arg).ok_or("node")?;
                 let m = self.nodes[i].sup_q.pop_front().ok_or("empty sup")?;
                 nundb::verif::set_data_dir(Some(self.nodes[i].node.dir.clone()));
-                self.nodes[i].sup_tx.try_send(m.clone()).map_err(|e| e.to_string())?;
+                if self.nodes[i].sup_tx.try_send(m.clone()).is_err() {
+                    // the supervisor loop ended earlier (it panicked): the command is lost
+                    let name = self.nodes[i].name.clone();
+                    self.emit(json!({"ev":"sup","node":name,"msg":m,"panic":false,"dead":true}));
+                    return Ok(());
+                }
                 let f = &mut self.nodes[i].sup_fut;
                 let r = catch_unwind(AssertUnwindSafe(|| poll_once(f)));
                 let name = self.nodes[i].name.clone();
